@@ -19,7 +19,9 @@ func (fr *Frame) call(st *State, c *ssa.CallCommon, in ssa.Instruction) []*Term 
 	return fr.callWith(st, c, in, args, fr.val(c.Value))
 }
 
-func (fr *Frame) siteAsserts(st *State, c *ssa.CallCommon, in ssa.Instruction, args []*Term) {
+// siteAsserts handles 'at call:<callee>[#k][:after] assert|assume' clauses of the function under verification.
+// Before the call the arguments are arg0..argN; after it (suffix ":after") the results are ret0..retN as well.
+func (fr *Frame) siteAsserts(st *State, c *ssa.CallCommon, in ssa.Instruction, args []*Term, results []*Term, after bool) {
 	root := fr
 	if !root.verifying || root.contract == nil {
 		return
@@ -31,10 +33,23 @@ func (fr *Frame) siteAsserts(st *State, c *ssa.CallCommon, in ssa.Instruction, a
 			continue
 		}
 		site := strings.TrimPrefix(cl.At, "call:")
+		isAfter := strings.HasSuffix(site, ":after")
+		site = strings.TrimSuffix(site, ":after")
+		if isAfter != after {
+			continue
+		}
 		if site != name && site != ord {
 			continue
 		}
 		ctx := fr.evalCtx(st, in.Block())
+		if after {
+			rs := c.Signature().Results()
+			for i, r := range results {
+				if i < rs.Len() {
+					ctx.vars[fmt.Sprintf("ret%d", i)] = CV{r, rs.At(i).Type()}
+				}
+			}
+		}
 		// callee arguments are visible as arg0..argN
 		for i, a := range args {
 			var t types.Type
@@ -66,9 +81,17 @@ func (fr *Frame) siteAsserts(st *State, c *ssa.CallCommon, in ssa.Instruction, a
 }
 
 func (fr *Frame) callWith(st *State, c *ssa.CallCommon, in ssa.Instruction, args []*Term, fnval *Term) []*Term {
+	fr.siteAsserts(st, c, in, args, nil, false)
+	res := fr.callWith0(st, c, in, args, fnval)
+	if !st.pc.IsFalse() {
+		fr.siteAsserts(st, c, in, args, res, true)
+	}
+	return res
+}
+
+func (fr *Frame) callWith0(st *State, c *ssa.CallCommon, in ssa.Instruction, args []*Term, fnval *Term) []*Term {
 	ex := fr.ex
 	sig := c.Signature()
-	fr.siteAsserts(st, c, in, args)
 
 	if b, ok := c.Value.(*ssa.Builtin); ok {
 		return fr.builtin(st, b, c, in, args)
